@@ -192,12 +192,12 @@ Proof.
 Qed.
 
 (* the oracle evaluated on the implementation's paths holds of the model's paths for every input *)
-Theorem model_satisfies_spec : forall cache rs hs tf dn df,
+Theorem model_satisfies_spec : forall cache rs hs tf dn df dt,
   cache_okb cache = true -> no_collision rs hs ->
   spec_okb {| c_cache := cache; c_rs := rs; c_hs := hs; c_paths := paths_model cache rs hs;
-              c_tafiles := tf; c_dumpnames := dn; c_dumpfiles := df |} = true.
+              c_tafiles := tf; c_dumpnames := dn; c_dumpfiles := df; c_dumptree := dt |} = true.
 Proof.
-  intros cache rs hs tf dn df Hc Hn. unfold spec_okb, spec_with.
+  intros cache rs hs tf dn df dt Hc Hn. unfold spec_okb, spec_with.
   cbn [c_cache c_rs c_hs c_paths].
   destruct (model_paths_satisfy_spec cache rs hs (cache_okb_root cache Hc) Hn) as [H1 [H2 H3]].
   rewrite H1, H2, H3, Nat.eqb_refl. reflexivity.
